@@ -708,6 +708,10 @@ class E3Session(SessionBase):
         m = metric_dict(metrics)
         if rx is None:
             raise Violation('C19', 'metrics-without-propagation', f'{who} {key}')
+        if any(np.any(np.isnan(rx[f])) for f in ('snr', 'snr_01nm', 'osnr_ase', 'osnr_ase_01nm')):
+            # undefined receiver figures (NaN out of the physics): min / max / mean of them are not defined either
+            self.st.probes['c19_nan_figures_not_judged'] += 1
+            return
         # exact (unrounded) receiver values; a reported value must be a 2-decimal number within half a unit of the
         # last place of the exact one (which way an exact .xx5 tie is rounded is not fixed by the property)
         with np.errstate(invalid='ignore'):
@@ -788,6 +792,9 @@ class E3Session(SessionBase):
             if row['spectrum (N,M)'] != f'{it["N"]}, {it["M"]}':
                 raise Violation('C19', 'csv-spectrum-wrong', f'{who}: {row["spectrum (N,M)"]} vs {it["N"]}, {it["M"]}')
             rx = it['rx']
+            if np.any(np.isnan(rx['snr_01nm'])) or np.any(np.isnan(rx['osnr_ase_01nm'])) or \
+                    (it['rrx'] is not None and np.any(np.isnan(it['rrx']['snr_01nm']))):
+                continue
             snr_min = float(row['SNR-0.1nm (min)'])
             if not _rounded_ok(snr_min, float(np.min(rx['snr_01nm']))) or \
                     not _rounded_ok(float(row['SNR-0.1nm (average)']), float(np.mean(rx['snr_01nm']))) or \
